@@ -63,6 +63,11 @@ func JSONTargets(p *Pkg) []JSONTarget {
 				continue
 			}
 			cs := p.Doc.Components.Schemas[name]
+			// a date-time with a Go layout (x-goag-go-time-format) is generated for parameters
+			// and response headers only; its JSON form is outside the JSON dialect
+			if rs := p.Doc.ResolveSchema(cs); rs != nil && rs.TimeFormat != "" {
+				continue
+			}
 			cl := targetClass(p.Doc, cs)
 			if cs.Ref != "" {
 				cl = "alias-component"
@@ -196,6 +201,22 @@ func CheckC06(p *Pkg, e *Env, r *res.Result) {
 			if err == nil && !json.Valid(bs) {
 				fail(classifyInvalidJSON(bs), fmt.Sprintf("MarshalJSON produced invalid JSON: %s", clip(string(bs), 300)))
 				return
+			}
+			// the bytes MarshalJSON returned belong to the caller: encoding another value
+			// afterwards must not change them
+			if err == nil && rapid.IntRange(0, 3).Draw(t, "hold_output") == 0 {
+				keep := string(bs)
+				tg2 := targets[rapid.IntRange(0, len(targets)-1).Draw(t, "second_target")]
+				g2 := &ValGen{T: t, Doc: p.Doc, Ctx: "json"}
+				for i := 0; i < 3; i++ {
+					marshalDirect(g2.Gen(tg2.Type, tg2.Schema, 3))
+				}
+				marshalDirect(v)
+				r.Label("held-output-checked")
+				if string(bs) != keep {
+					fail("marshal-output-overwritten", fmt.Sprintf("the bytes returned by MarshalJSON (%s) were overwritten by later MarshalJSON calls (now %s)", clip(keep, 200), clip(string(bs), 200)))
+					return
+				}
 			}
 		}
 		bs, err := safeMarshal(v.Interface())
